@@ -1428,3 +1428,59 @@ func (g *Gen) CopyWitness(from, to *Node) {
 		g.wit[to] = w
 	}
 }
+
+// GenChain builds a schema that is one long chain of containers (single-field structs, slices, pointers) of the given
+// depth ending in a required string leaf with a Min test, and a typed value for it whose leaves are valid or not.
+// Issue paths of such schemas have depth+ segments.
+func GenChain(rt *rapid.T, depth int) (*Node, Val) {
+	leaf := &Node{Kind: KString, Req: true, Tests: []TestSpec{{Name: "min", N: 3}}}
+	n := leaf
+	keys := []string{"a", "b", "items", "name", "c", "next", "list", "d"}
+	type step struct {
+		kind string
+		key  string
+	}
+	var steps []step
+	for i := 0; i < depth; i++ {
+		k := rapid.SampledFrom([]string{KStruct, KStruct, KSlice, KPtr}).Draw(rt, "ck")
+		if k == KPtr && n.Kind == KPtr {
+			k = KStruct
+		}
+		st := step{kind: k}
+		switch k {
+		case KStruct:
+			st.key = keys[rapid.IntRange(0, len(keys)-1).Draw(rt, "ckey")]
+			n = &Node{Kind: KStruct, Fields: []Field{{Key: st.key, Node: n}}}
+		case KSlice:
+			n = &Node{Kind: KSlice, Elem: n}
+		case KPtr:
+			n = &Node{Kind: KPtr, Elem: n, Req: true}
+		}
+		steps = append(steps, st)
+	}
+	if n.Kind != KStruct {
+		n = &Node{Kind: KStruct, Fields: []Field{{Key: "root", Node: n}}}
+		steps = append(steps, step{kind: KStruct, key: "root"})
+	}
+	// value, built from the leaf outwards
+	var build func(i int) Val
+	build = func(i int) Val {
+		if i < 0 {
+			return Str(rapid.SampledFrom([]string{"ab", "abcd", "x", "valid"}).Draw(rt, "cleaf"))
+		}
+		switch steps[i].kind {
+		case KStruct:
+			return Map(KV{K: steps[i].key, V: build(i - 1)})
+		case KSlice:
+			k := rapid.IntRange(1, 3).Draw(rt, "clen")
+			l := Val{T: "list"}
+			for j := 0; j < k; j++ {
+				l.L = append(l.L, build(i-1))
+			}
+			return l
+		}
+		return build(i - 1) // pointer: the value itself
+	}
+	n.Number()
+	return n, build(len(steps) - 1)
+}
